@@ -4,6 +4,7 @@ import Proofs.Lemmas.ForkChoiceRefQueries2
 import Proofs.Lemmas.ForkChoiceRefJustify
 import Proofs.Lemmas.ForkChoicePruneRef
 import Proofs.Lemmas.ForkChoicePruneInv
+import Proofs.Lemmas.ForkChoiceNodesOrd
 /-! Simulation of the specification by the code-shaped model on admissible histories: `refines_run`, `head_eq_ghost_run`. -/
 namespace Zrnt.ForkChoice
 open Spec FC
@@ -96,7 +97,8 @@ theorem pruneOK : RefJ.PruneOK := by
   | panic => exact fun h1 _ => h1
   | spin => exact fun h1 _ => h1
 
-theorem stepLive_sim (fc : FC) (a : Abs) (hh : fc.held = false) (I : FI fc) (hl : LI fc.pa) (r : Ref fc a) (op : Op)
+theorem stepLive_sim (fc : FC) (a : Abs) (hh : fc.held = false) (I : FI fc) (hl : LI fc.pa) (ho : IdxOrd fc.pa)
+    (r : Ref fc a) (op : Op)
     (hok : StepOK (.live fc) op) (hni : ∀ spe ar as ap j f sink bals, op ≠ .init spe ar as ap j f sink bals) :
     SimOK op (stepLive fc op) (a.stepLive op) := by
   -- queries that leave the specification state alone
@@ -248,7 +250,12 @@ theorem stepLive_sim (fc : FC) (a : Abs) (hh : fc.held = false) (I : FI fc) (hl 
   | just => exact ⟨r, fun _ => by simp [stepLive, Abs.stepLive, r.justified]⟩
   | fin => exact ⟨r, fun _ => by simp [stepLive, Abs.stepLive, r.finalized]⟩
   | pinq => exact ⟨r, fun _ => by simp [stepLive, Abs.stepLive, r.pin]⟩
-  | nodes => exact ⟨r, fun h => by cases h⟩
+  | nodes =>
+    refine ⟨r, fun _ => ?_⟩
+    rw [nodes_answer fc ho]
+    show Ans.nodes (fc.pa.nodes.map (·.ref)) = Ans.nodes (a.nodes.map (·.ref))
+    rw [r.nodes]
+    simp [absNodes, List.map_map, Function.comp_def, absNode]
 
 /-- `Search`: unless the specification leaves the search unconstrained (`any`), the model's answer is the
 specification's (the two result lists element by element) -/
@@ -302,7 +309,8 @@ theorem step_search (st : MState) (sa : Option Abs) (h3 : MInv3 st) (hR : MRef s
       rw [h1, hc]
       simpa using hs
 
-theorem step_sim (st : MState) (sa : Option Abs) (h3 : MInv3 st) (hR : MRef st sa) (op : Op) (hok : StepOK st op) :
+theorem step_sim (st : MState) (sa : Option Abs) (h3 : MInv3 st) (hO : MOrd st) (hR : MRef st sa) (op : Op)
+    (hok : StepOK st op) :
     MRef (step st op).1 (Spec.step sa op).1 ∧ (Refined op = true → (step st op).2 = (Spec.step sa op).2) ∧
       (IsSearch op = true → (Spec.step sa op).2 = Ans.any ∨ (step st op).2 = (Spec.step sa op).2) := by
   refine ⟨?_, ?_, step_search st sa h3 hR op⟩
@@ -322,7 +330,7 @@ theorem step_sim (st : MState) (sa : Option Abs) (h3 : MInv3 st) (hR : MRef st s
       cases sa with
       | none => exact hR.elim
       | some a =>
-        have hs := stepLive_sim fc a h3.1 h3.2.1 h3.2.2 hR _ hok (by intros; exact fun h => by cases h)
+        have hs := stepLive_sim fc a h3.1 h3.2.1 h3.2.2 hO hR _ hok (by intros; exact fun h => by cases h)
         obtain ⟨h1, h2⟩ := hs
         simp only [step, Spec.step]
         revert h1 h2
@@ -357,16 +365,17 @@ empty-slot insertions, no vote for Go's zero NodeRef, finalized checkpoint never
 `FindHead(anchor, slot)` answer of the code-shaped model — value or error — is the answer of the specification:
 the GHOST walk from the pinned / justified start node over the children that lead to a viable head, choosing the
 greatest (subtree weight of latest accepted votes, root). -/
-theorem refines_run : ∀ (ops : List Op) (st : MState) (sa : Option Abs), MInv3 st → MRef st sa → Admissible st ops →
+theorem refines_run : ∀ (ops : List Op) (st : MState) (sa : Option Abs), MInv3 st → MOrd st → MRef st sa →
+    Admissible st ops →
     AnswersAgree ops (run st ops).2 (Spec.run sa ops).2 ∧ MRef (run st ops).1 (Spec.run sa ops).1 := by
   intro ops
   induction ops with
-  | nil => intro st sa _ hR _; exact ⟨trivial, hR⟩
+  | nil => intro st sa _ _ hR _; exact ⟨trivial, hR⟩
   | cons op rest ih =>
-    intro st sa h3 hR ha
-    obtain ⟨hr1, hans, hsrch⟩ := step_sim st sa h3 hR op ha.1
+    intro st sa h3 hO hR ha
+    obtain ⟨hr1, hans, hsrch⟩ := step_sim st sa h3 hO hR op ha.1
     have h3' := step_inv3 st h3 op ha.1
-    obtain ⟨hrest, hfin⟩ := ih (step st op).1 (Spec.step sa op).1 h3' hr1 ha.2
+    obtain ⟨hrest, hfin⟩ := ih (step st op).1 (Spec.step sa op).1 h3' (step_ord st op hO) hr1 ha.2
     simp only [run, Spec.run]
     exact ⟨⟨hans, hsrch, hrest⟩, hfin⟩
 
@@ -383,10 +392,10 @@ theorem headsAgree_of_answers : ∀ (ops : List Op) (xs ys : List Ans), AnswersA
       | nil => simp [AnswersAgree] at h
       | cons y ys => exact ⟨fun hh => h.1 (refined_of_head hh), ih xs ys h.2.2⟩
 
-theorem head_eq_ghost_run (ops : List Op) (st : MState) (sa : Option Abs) (h3 : MInv3 st) (hR : MRef st sa)
-    (ha : Admissible st ops) :
+theorem head_eq_ghost_run (ops : List Op) (st : MState) (sa : Option Abs) (h3 : MInv3 st) (hO : MOrd st)
+    (hR : MRef st sa) (ha : Admissible st ops) :
     HeadsAgree ops (run st ops).2 (Spec.run sa ops).2 ∧ MRef (run st ops).1 (Spec.run sa ops).1 :=
-  ⟨headsAgree_of_answers _ _ _ (refines_run ops st sa h3 hR ha).1, (refines_run ops st sa h3 hR ha).2⟩
+  ⟨headsAgree_of_answers _ _ _ (refines_run ops st sa h3 hO hR ha).1, (refines_run ops st sa h3 hO hR ha).2⟩
 
 /-- executable version of `HeadsAgree` -/
 def headsAgreeB : List Op → List Ans → List Ans → Bool
